@@ -40,6 +40,10 @@ def ms_add_constraints(M, intg, with_path=True):
         ocp.subject_to(e3 == 0.0)
         e4 = ufun("bf", 1, [ocp.at_tf(x)])
         ocp.subject_to(e4 <= 0.0)
+        # shifted operands: instances that would reach outside the horizon are dropped, nothing else
+        ocp.subject_to(ufun("co", 1, [x, ocp.next(x)]) <= 5.0)
+        ocp.subject_to(ufun("cp", 1, [x, ocp.prev(x), u]) <= 6.0)
+        ocp.subject_to(ufun("cm", 1, [ocp.next(x), x, ocp.prev(x)]) <= 7.0)        # two different shifts in one constraint
         cons = [(e1, f1, l1), (e2, f2, l2)]
     QUAL = "multiple_shooting:MultipleShooting.add_constraints"
     scale_x = pre.scale_x
@@ -104,6 +108,10 @@ def ms_add_constraints(M, intg, with_path=True):
             rows.append((("integrator", l), "le", ufun("c2", 1, [xs[l], d["u"], tl, d["pc"]]) - 2.0, 1))
         if not ((k == 0) & ~cons[0][1]):
             rows.append((("control",), "le", ufun("c1", 1, [pre.Xf(k), d["u"], tk, d["pc"], d["vc"], pre.Pcpf(k), pre.Vcpf(k), d["p"], d["v"]]) - 1.0, 1))
+        rows.append((("next",), "le", ufun("co", 1, [pre.Xf(k), pre.Xf(unwrap_int(k + 1))]) - 5.0, 1))       # node k+1 <= N always exists
+        if not (k == 0):
+            rows.append((("prev",), "le", ufun("cp", 1, [pre.Xf(k), pre.Xf(unwrap_int(k - 1)), d["u"]]) - 6.0, 1))   # node -1 does not exist
+            rows.append((("mixed",), "le", ufun("cm", 1, [pre.Xf(unwrap_int(k + 1)), pre.Xf(k), pre.Xf(unwrap_int(k - 1))]) - 7.0, 1))
         return rows
 
     loops.SPECS.clear()
@@ -124,6 +132,8 @@ def ms_add_constraints(M, intg, with_path=True):
             expected.append((("control", "final"), "le", ufun("c1", 1, [pre.Xf(N), d["u"], tN, d["pc"], d["vc"], pre.Pcpf(N), pre.Vcpf(N), d["p"], d["v"]]) - 1.0, 1))
         if cons[1][2]:
             expected.append((("integrator", "final"), "le", ufun("c2", 1, [pre.Xf(N), d["u"], tN, d["pc"]]) - 2.0, 1))
+        # final node: next() reaches node N+1 -> dropped; prev() is node N-1
+        expected.append((("prev", "final"), "le", ufun("cp", 1, [pre.Xf(N), pre.Xf(unwrap_int(N - 1)), d["u"]]) - 6.0, 1))
     contract.EmissionChecker(opti).compare(QUAL + ":ensures:outside-loops", emitted, expected)
     # post-state used by sampling (C07/C08): X untouched, xk closed by the final node state
     c = ctx()
@@ -148,6 +158,9 @@ def ss_add_constraints(M, intg):
     ocp.subject_to(e3 == 0.0)
     e4 = ufun("bf", 1, [ocp.at_tf(x)])
     ocp.subject_to(e4 <= 0.0)
+    ocp.subject_to(ufun("co", 1, [x, ocp.next(x)]) <= 5.0)
+    ocp.subject_to(ufun("cp", 1, [x, ocp.prev(x), u]) <= 6.0)
+    ocp.subject_to(ufun("cm", 1, [ocp.next(x), x, ocp.prev(x)]) <= 7.0)
     QUAL = "single_shooting:SingleShooting.add_constraints"
     c = ctx()
     # spec function of the recursion: Psi(0) = X0, Psi(j+1) = last of propagate(j, Psi(j))   (oracle steps)
@@ -221,6 +234,10 @@ def ss_add_constraints(M, intg):
             rows.append((("integrator", l), "le", ufun("c2", 1, [xs[l], d["u"], tl, d["pc"]]) - 2.0, 1))
         if not ((k == 0) & ~f1):
             rows.append((("control",), "le", ufun("c1", 1, [Psi(k), d["u"], tk, d["pc"], d["vc"], pre.Pcpf(k), pre.Vcpf(k), d["p"], d["v"]]) - 1.0, 1))
+        rows.append((("next",), "le", ufun("co", 1, [Psi(k), Psi(unwrap_int(k + 1))]) - 5.0, 1))
+        if not (k == 0):
+            rows.append((("prev",), "le", ufun("cp", 1, [Psi(k), Psi(unwrap_int(k - 1)), d["u"]]) - 6.0, 1))
+            rows.append((("mixed",), "le", ufun("cm", 1, [Psi(unwrap_int(k + 1)), Psi(k), Psi(unwrap_int(k - 1))]) - 7.0, 1))
         return rows
 
     loops.SPECS.clear()
@@ -237,6 +254,7 @@ def ss_add_constraints(M, intg):
         expected.append((("control", "final"), "le", ufun("c1", 1, [Psi(N), d["u"], tN, d["pc"], d["vc"], pre.Pcpf(N), pre.Vcpf(N), d["p"], d["v"]]) - 1.0, 1))
     if l2:
         expected.append((("integrator", "final"), "le", ufun("c2", 1, [Psi(N), d["u"], tN, d["pc"]]) - 2.0, 1))
+    expected.append((("prev", "final"), "le", ufun("cp", 1, [Psi(N), Psi(unwrap_int(N - 1)), d["u"]]) - 6.0, 1))
     contract.EmissionChecker(opti).compare(QUAL + ":ensures:outside-loops", emitted, expected)
     # C01: the reported states are the recursion
     j = fresh_int("j")
